@@ -931,3 +931,490 @@ Proof.
   intros Hv. unfold parse_scriptlet_args. destruct (null (trim args)); [exact I|].
   apply psa_loop_safe; [exact Hv|lia].
 Qed.
+
+(* ------------------------------------------------------------------ NetworkFilter::parse *)
+Lemma find_separator_nth s i : find_separator s = Some i -> exists c, nth_error s i = Some c /\ c < 128.
+Proof.
+  revert i; induction s as [|x s IH]; cbn [find_separator]; intros i H; [discriminate|].
+  destruct (N.eqb x c_SLASH || N.eqb x c_CARET || N.eqb x c_STAR) eqn:E.
+  - inversion H; subst. exists x. split; [reflexivity|]. unfold c_SLASH, c_CARET, c_STAR in E. lia.
+  - destruct (find_separator s) as [j|]; [|discriminate]. inversion H; subst. cbn. apply IH. reflexivity.
+Qed.
+
+Section NetworkProofs.
+Variable lower : str -> str.
+Variable idna : str -> option str.
+
+Lemma hostname_step_props p mask is_regex : valid_utf8 p = true ->
+  exists m h fis, hostname_step p mask is_regex = Ok (m, h, fis) /\ good p fis.
+Proof.
+  intros Hv. unfold hostname_step. destruct is_regex.
+  - destruct (find_separator p) as [sep|] eqn:F; [|do 3 eexists; split; [reflexivity|apply good_0]].
+    destruct (find_separator_nth _ _ F) as (c & Hn & Hc).
+    assert (G : good p sep) by (eapply good_ascii; eauto).
+    assert (G1 : good p (S sep)) by (eapply good_after_ascii; eauto).
+    pose proof (nth_error_lt _ _ _ Hn) as Hl.
+    assert (Nat.ltb sep (length p) = true) as -> by (apply Nat.ltb_lt; exact Hl).
+    rewrite slice_ok by (assumption || lia). cbn [rbind].
+    rewrite slice_to_ok by exact G. cbn [rbind].
+    destruct (Nat.eqb (length p - sep) 1).
+    + rewrite slice_from_ok by exact G. cbn [rbind].
+      destruct (prefixb [c_CARET] (drop sep p)).
+      * do 3 eexists. split; [reflexivity|apply good_len].
+      * rewrite slice_ok by (assumption || apply good_len || lia). cbn [rbind].
+        do 3 eexists. split; [reflexivity|exact G].
+    + cbn [rbind]. rewrite slice_ok by (assumption || apply good_len || lia). cbn [rbind].
+      do 3 eexists. split; [reflexivity|exact G].
+  - destruct (find_byte c_SLASH p) as [i|] eqn:F.
+    + assert (G : good p i) by (eapply good_find; [|exact F]; ascii_lt).
+      rewrite slice_to_ok by exact G. cbn [rbind]. do 3 eexists. split; [reflexivity|exact G].
+    + do 3 eexists. split; [reflexivity|apply good_len].
+Qed.
+
+Lemma strip_stars_props p mask fis : valid_utf8 p = true -> good p fis ->
+  exists m fis' fie', strip_stars p mask fis = Ok (m, fis', fie') /\ good p fis' /\ good p fie'.
+Proof.
+  intros Hv G. unfold strip_stars.
+  set (fie := if Nat.ltb fis (length p) && suffixb [c_STAR] p then (length p - 1)%nat else length p).
+  assert (Gfie : good p fie).
+  { subst fie. destruct (Nat.ltb fis (length p) && suffixb [c_STAR] p) eqn:E; [|apply good_len].
+    apply andb_true_iff in E as [_ E]. change 1%nat with (length [c_STAR]).
+    apply good_before_suffix; [exact E|reflexivity]. }
+  destruct (Nat.ltb fis fie) eqn:El.
+  - rewrite slice_from_ok by exact G. cbn [rbind]. destruct (prefixb [c_STAR] (drop fis p)) eqn:Ep.
+    + do 3 eexists. split; [reflexivity|]. split; [|exact Gfie].
+      eapply good_after_ascii with (c := c_STAR); [exact Hv| |ascii_lt].
+      replace fis with (fis + 0)%nat by lia. rewrite <- nth_error_drop.
+      eapply prefixb_nth; [exact Ep|reflexivity].
+    + do 3 eexists. split; [reflexivity|]. auto.
+  - cbn [rbind]. do 3 eexists. split; [reflexivity|]. auto.
+Qed.
+
+Lemma guard_eq p fis (c : bool) pre : good p fis ->
+  (if c then r <- slice_from p fis ;; Ok (prefixb pre r) else Ok false) = Ok (c && prefixb pre (drop fis p)).
+Proof. intros G. destruct c; [|reflexivity]. rewrite slice_from_ok by exact G. reflexivity. Qed.
+
+Lemma protocol_step_props p mask fis fie : good p fis ->
+  exists m f', protocol_step p mask fis fie = Ok (m, f') /\ (f' = fis \/ f' = fie).
+Proof.
+  intros G. unfold protocol_step. destruct (mhas mask M_IS_LEFT_ANCHOR); [|eauto].
+  rewrite guard_eq by exact G. cbn [rbind]. destruct (Nat.eqb fie (fis + 5) && _); [eauto|].
+  rewrite guard_eq by exact G. cbn [rbind]. destruct (Nat.eqb fie (fis + 7) && _); [eauto|].
+  rewrite guard_eq by exact G. cbn [rbind]. destruct (Nat.eqb fie (fis + 8) && _); [eauto|].
+  rewrite guard_eq by exact G. cbn [rbind]. destruct (Nat.eqb fie (fis + 8) && _); eauto.
+Qed.
+
+Lemma final_filter_safe p mask fis fie : good p fis -> good p fie -> safe (final_filter p mask fis fie).
+Proof.
+  intros G1 G2. unfold final_filter. destruct (Nat.ltb fis fie) eqn:E; [|exact I].
+  apply Nat.ltb_lt in E. rewrite slice_ok by (assumption || lia). exact I.
+Qed.
+
+Lemma pattern_pipeline_safe p mask ha is_regex :
+  valid_utf8 p = true -> safe (pattern_pipeline p mask ha is_regex).
+Proof.
+  intros Hv. unfold pattern_pipeline.
+  assert (exists m h fis, (if ha then hostname_step p mask is_regex else Ok (mask, None, O)) = Ok (m, h, fis)
+                          /\ good p fis) as (m & h & fis & -> & G).
+  { destruct ha; [apply hostname_step_props; exact Hv|]. do 3 eexists. split; [reflexivity|apply good_0]. }
+  cbn [rbind]. destruct (strip_stars_props p m fis Hv G) as (m2 & fis2 & fie2 & -> & G2 & G3). cbn [rbind].
+  destruct (protocol_step_props p m2 fis2 fie2 G2) as (m3 & f3 & -> & Hf3). cbn [rbind].
+  assert (G4 : good p f3) by (destruct Hf3 as [->| ->]; assumption).
+  pose proof (final_filter_safe p m3 f3 fie2 G4 G3) as Hs.
+  destruct (final_filter p m3 f3 fie2) as [[m4 flt]|w]; [exact I|contradiction].
+Qed.
+
+Lemma network_build_safe line parsed :
+  valid_utf8 (af_pattern parsed) = true -> safe (network_build lower idna line parsed).
+Proof.
+  intros Hv. unfold network_build. cbv zeta. apply safe_pbind.
+  - destruct (af_options parsed) as [os|]; [|exact I]. destruct (validate_options os); exact I.
+  - intros acc _.
+    match goal with |- safe (if ?c then _ else _) => destruct c end; [exact I|].
+    apply safe_rbind; [apply pattern_pipeline_safe; exact Hv|].
+    intros [[m h] f] _.
+    repeat match goal with
+           | |- safe (if ?c then _ else _) => destruct c; try exact I
+           | |- safe (match ?x with _ => _ end) => destruct x; try exact I
+           end.
+Qed.
+
+Theorem network_parse_safe line : valid_utf8 line = true -> safe (network_parse lower idna line).
+Proof.
+  intros Hv. unfold network_parse. destruct (abstract_parse_props line Hv) as [Hs Hp].
+  apply safe_pbind; [exact Hs|]. intros p Hpe. apply network_build_safe. apply Hp. exact Hpe.
+Qed.
+
+(* idna::domain_to_ascii returns a String: valid UTF-8 *)
+Hypothesis idna_valid : forall s h, idna s = Some h -> valid_utf8 h = true.
+
+Lemma norm_host_valid h a : norm_host lower idna h = Some a -> valid_utf8 a = true.
+Proof.
+  unfold norm_host.
+  destruct (all_ascii (trim_start_matches (bs "www.") (to_lowercase lower h))) eqn:E.
+  - intros H; inversion H; subst. apply valid_ascii. exact E.
+  - apply idna_valid.
+Qed.
+
+Theorem parse_hosts_style_safe h : valid_utf8 h = true -> safe (parse_hosts_style lower idna h).
+Proof.
+  intros Hv. unfold parse_hosts_style. destruct (has_invalid_host_char h); [exact I|].
+  apply safe_rbind.
+  - destruct (find_byte c_DOT h); [|exact I]. apply safe_rbind; [|intros; exact I].
+    destruct (prefixb [c_DOT] h) eqn:E; [|exact I].
+    rewrite slice_from_ok; [exact I|].
+    eapply good_after_ascii with (c := c_DOT); [exact Hv| |ascii_lt].
+    eapply prefixb_nth; [exact E|reflexivity].
+  - intros bad _. destruct bad; [exact I|]. unfold hosts_rule_text.
+    destruct (norm_host lower idna h) as [a|] eqn:En; [|exact I].
+    apply network_parse_safe. apply valid_app; [reflexivity|].
+    apply valid_app; [eapply norm_host_valid; exact En|reflexivity].
+Qed.
+End NetworkProofs.
+
+(* ------------------------------------------------------------------ CosmeticFilter::parse *)
+Lemma split_on_run c s q : c < 128 -> urun q s = UA ->
+  match split_on c s with
+  | [] => False
+  | p :: ps => urun q p = UA /\ Forall (fun x => valid_utf8 x = true) ps
+  end.
+Proof.
+  intros Hc. revert q; induction s as [|x s IH]; intros q H; cbn [split_on].
+  - split; [exact H|constructor].
+  - destruct (N.eqb x c) eqn:E.
+    + apply N.eqb_eq in E. subst x.
+      assert (Hnc : is_cont c = false) by (unfold is_cont, rng; lia).
+      pose proof (urun_noncont_head _ _ _ Hnc H) as ->. split; [reflexivity|].
+      cbn [urun fold_left] in H. rewrite ustep_UA_ascii in H by exact Hc. fold (urun UA s) in H.
+      specialize (IH UA H). destruct (split_on c s) as [|p ps]; [contradiction|].
+      destruct IH as [H1 H2]. constructor; [apply valid_iff; exact H1|exact H2].
+    + cbn [urun fold_left] in H. fold (urun (ustep q x) s) in H. specialize (IH _ H).
+      destruct (split_on c s) as [|p ps]; [contradiction|]. destruct IH as [H1 H2].
+      split; [|exact H2]. cbn [urun fold_left]. exact H1.
+Qed.
+
+Lemma split_on_valid c s : c < 128 -> valid_utf8 s = true ->
+  Forall (fun x => valid_utf8 x = true) (split_on c s).
+Proof.
+  intros Hc Hv. apply valid_iff in Hv. pose proof (split_on_run c s UA Hc Hv) as H.
+  destruct (split_on c s) as [|p ps]; [contradiction|]. destruct H as [H1 H2].
+  constructor; [apply valid_iff; exact H1|exact H2].
+Qed.
+
+Lemma find_sub_prefix p s i : find_sub p s = Some i -> prefixb p (drop i s) = true.
+Proof.
+  revert i; induction s as [|x s IH]; intros i; cbn [find_sub].
+  - destruct (prefixb p []) eqn:E; [|discriminate]. intros H; inversion H; subst. exact E.
+  - destruct (prefixb p (x :: s)) eqn:E.
+    + intros H; inversion H; subst. exact E.
+    + destruct (find_sub p s) as [j|]; [|discriminate]. intros H; inversion H; subst. cbn. apply IH. reflexivity.
+Qed.
+
+Lemma location_of_props part : valid_utf8 part = true ->
+  exists k loc, location_of part = Ok (k, loc).
+Proof.
+  intros Hv. unfold location_of.
+  set (neg := prefixb [c_TILDE] part). set (ent := suffixb (bs ".*") part).
+  assert (G1 : good part (if neg then 1%nat else O)).
+  { subst neg. destruct (prefixb [c_TILDE] part) eqn:E; [|apply good_0].
+    eapply good_after_ascii with (c := c_TILDE); [exact Hv| |ascii_lt]. eapply prefixb_nth; [exact E|reflexivity]. }
+  assert (G2 : good part (if ent then (length part - 2)%nat else length part)).
+  { subst ent. destruct (suffixb (bs ".*") part) eqn:E; [|apply good_len].
+    change 2%nat with (length (bs ".*")). apply good_before_suffix; [exact E|reflexivity]. }
+  assert (Hle : ((if neg then 1 else 0) <= (if ent then length part - 2 else length part))%nat).
+  { subst neg ent. destruct (prefixb [c_TILDE] part) eqn:E1; [|lia].
+    pose proof (prefixb_length _ _ E1) as Hl. cbn [length] in Hl.
+    destruct (suffixb (bs ".*") part) eqn:E2; [|lia].
+    apply suffixb_inv in E2 as [E2a E2b]. change (length (bs ".*")) with 2%nat in *.
+    destruct (Nat.eq_dec (length part) 2) as [Heq|Hne]; [|lia]. exfalso.
+    rewrite Heq in E2b. cbn in E2b. pose proof (prefixb_nth _ _ O c_TILDE E1 eq_refl) as Hn.
+    rewrite E2b in Hn. discriminate. }
+  rewrite slice_ok by assumption. cbn [rbind].
+  destruct (prefixb [c_SLASH] _); eauto.
+Qed.
+
+Section CosmeticProofs.
+Variable idna : str -> option str.
+
+Lemma locations_loop_safe parts acc u :
+  Forall (fun x => valid_utf8 x = true) parts -> safe (locations_loop idna parts acc u).
+Proof.
+  intros H. revert acc u; induction H as [|p r Hp Hr IH]; intros acc u; [exact I|].
+  cbn [locations_loop]. destruct (null p); [apply IH|].
+  destruct (location_of_props p Hp) as (k & loc & ->). cbn [rbind].
+  destruct (all_ascii loc).
+  - destruct (N.eqb k 4); apply IH.
+  - destruct (idna loc) as [x|]; [|exact I]. destruct (null x); [exact I|].
+    destruct (N.eqb k 4); apply IH.
+Qed.
+
+Lemma parse_before_sharp_safe line i : valid_utf8 line = true -> good line i ->
+  safe (parse_before_sharp idna line i).
+Proof.
+  intros Hv G. unfold parse_before_sharp. destruct (prefixb [c_LBRACK] line); [exact I|].
+  rewrite slice_ok by (apply good_0 || assumption || lia). cbn [rbind]. rewrite Nat.sub_0_r.
+  apply safe_pbind.
+  - apply locations_loop_safe. apply split_on_valid; [ascii_lt|]. apply valid_take; assumption.
+  - intros lu _. destruct (snd lu && null (fst lu)); exact I.
+Qed.
+
+(* an action token: ASCII, ends with '(' *)
+Definition tok_ok (t : string * N) : Prop :=
+  all_ascii (bs (fst t)) = true /\ suffixb [40] (bs (fst t)) = true.
+
+Lemma action_loop_safe toks after :
+  valid_utf8 after = true -> Forall tok_ok toks -> safe (action_loop toks after).
+Proof.
+  intros Hv H. induction H as [|[tok kind] r [Ha Hs] Hr IH]; [exact I|].
+  cbn [action_loop]. cbn [fst] in Ha, Hs. destruct (find_sub (bs tok) after) as [i|] eqn:F; [|exact IH].
+  destruct (suffixb [c_RPAREN] after) eqn:Ep; [|exact I].
+  pose proof (find_sub_prefix _ _ _ F) as Hp.
+  pose proof (prefixb_length _ _ Hp) as Hl. rewrite length_drop in Hl.
+  apply suffixb1_nth in Hs as [Hs1 Hs2]. apply suffixb1_nth in Ep as [Ep1 Ep2].
+  set (n := length (bs tok)) in *.
+  (* the '(' of the token sits at i + n - 1 *)
+  assert (Hopen : nth_error after (i + (n - 1)) = Some 40).
+  { rewrite <- nth_error_drop. eapply prefixb_nth; [exact Hp|exact Hs2]. }
+  assert (Hi : (i + n <= length after - 1)%nat).
+  { destruct (Nat.eq_dec (i + (n - 1)) (length after - 1)) as [Heq|Hne]; [|lia].
+    rewrite Heq, Ep2 in Hopen. discriminate. }
+  assert (G1 : good after (i + n)).
+  { replace (i + n)%nat with (S (i + (n - 1))) by lia. eapply good_after_ascii; [exact Hv|exact Hopen|lia]. }
+  assert (G2 : good after (length after - 1)) by (eapply good_ascii; [exact Ep2|ascii_lt]).
+  assert (G3 : good after i).
+  { destruct (bs tok) as [|c0 t0] eqn:Et; [cbn in Hs1; lia|].
+    eapply good_ascii with (c := c0).
+    - replace i with (i + 0)%nat by lia. rewrite <- nth_error_drop. eapply prefixb_nth; [exact Hp|reflexivity].
+    - cbn in Ha. apply andb_true_iff in Ha as [Ha _]. unfold is_ascii in Ha. lia. }
+  rewrite slice_ok by assumption. cbn [rbind].
+  destruct (negb (N.eqb kind 1) && forbid_regex_or_quoted _); [exact I|].
+  rewrite slice_to_ok by exact G3. exact I.
+Qed.
+
+Lemma action_tokens_ok : Forall tok_ok action_tokens.
+Proof. repeat constructor. Qed.
+
+Lemma parse_after_sharp_nonscript_safe after :
+  valid_utf8 after = true -> safe (parse_after_sharp_nonscript after).
+Proof.
+  intros Hv. unfold parse_after_sharp_nonscript. destruct (prefixb [c_CARET] after); [exact I|].
+  apply safe_pbind; [apply action_loop_safe; [exact Hv|apply action_tokens_ok]|].
+  intros [x|] _; [exact I|]. destruct (suffixb (bs ":remove()") after); exact I.
+Qed.
+
+Theorem cosmetic_parse_safe line : valid_utf8 line = true -> safe (cosmetic_parse idna line).
+Proof.
+  intros Hv. unfold cosmetic_parse.
+  destruct (find_byte c_HASH line) as [i0|] eqn:F0; [|exact I].
+  assert (Gs : good line i0) by (eapply good_find; [|exact F0]; ascii_lt).
+  assert (Ga : good line (S i0)) by (eapply good_find_next; [exact Hv| |exact F0]; ascii_lt).
+  rewrite slice_from_ok by exact Ga. cbn [rbind].
+  pose proof (valid_drop _ _ Hv Ga) as Hvr.
+  destruct (find_byte c_HASH (drop (S i0) line)) as [i|] eqn:F1; [|exact I].
+  assert (Gss : good line (i + S i0)).
+  { rewrite Nat.add_comm. apply good_shift; [exact Hv|exact Ga|]. eapply good_find; [|exact F1]; ascii_lt. }
+  assert (Hsecond : nth_error line (i + S i0) = Some c_HASH).
+  { rewrite Nat.add_comm, <- nth_error_drop. apply find_byte_nth. exact F1. }
+  assert (Gnext : good line (S (i + S i0))) by (eapply good_after_ascii; [exact Hv|exact Hsecond|ascii_lt]).
+  pose proof (slice_ok line (S i0) (i + S i0) Ga Gss ltac:(lia)) as Hb. rewrite Hb. cbn [rbind].
+  pose proof (slice_valid _ _ _ _ Hv Hb) as Hvb.
+  set (between := take (i + S i0 - S i0) (drop (S i0) line)) in *.
+  apply safe_pbind.
+  - destruct (prefixb [c_AT] between) eqn:Eat; [|exact I].
+    destruct (Nat.eqb i0 0); [exact I|].
+    rewrite slice_from_ok; [exact I|].
+    eapply good_after_ascii with (c := c_AT); [exact Hvb| |ascii_lt]. eapply prefixb_nth; [exact Eat|reflexivity].
+  - intros [unhide b2] Hub. cbn [fst snd].
+    assert (Hvb2 : valid_utf8 b2 = true).
+    { destruct (prefixb [c_AT] between) eqn:Eat.
+      - destruct (Nat.eqb i0 0); [discriminate|].
+        assert (G : good between 1).
+        { eapply good_after_ascii with (c := c_AT); [exact Hvb| |ascii_lt]. eapply prefixb_nth; [exact Eat|reflexivity]. }
+        rewrite slice_from_ok in Hub by exact G. cbn [rbind] in Hub. unfold ret in Hub. inversion Hub; subst.
+        change (valid_utf8 (drop 1 between) = true). apply valid_drop; assumption.
+      - inversion Hub; subst. exact Hvb. }
+    destruct (prefixb [37] b2); [exact I|]. destruct (prefixb [c_DOLLAR] b2); [exact I|].
+    apply safe_rbind.
+    + destruct (prefixb [63] b2) eqn:Eq; [|exact I]. rewrite slice_from_ok; [exact I|].
+      eapply good_after_ascii with (c := 63); [exact Hvb2| |lia]. eapply prefixb_nth; [exact Eq|reflexivity].
+    + intros b3 _. destruct (negb (null b3)); [exact I|].
+      apply safe_pbind.
+      * destruct (Nat.ltb 0 i0); [|exact I]. apply parse_before_sharp_safe; assumption.
+      * intros locs _. rewrite !slice_from_ok by exact Gnext. cbn [rbind].
+        pose proof (valid_drop _ _ Hv Gnext) as Hvt.
+        destruct (null (trim (drop (S (i + S i0)) line))); [exact I|].
+        set (ss := S (i + S i0)) in *.
+        destruct (Nat.ltb 4 (length line - ss)) eqn:E4; cbn [rbind].
+        -- destruct (prefixb (bs "+js(") (drop ss line) && suffixb [c_RPAREN] line) eqn:Ejs.
+           ++ apply andb_true_iff in Ejs as [Ej1 Ej2]. apply Nat.ltb_lt in E4.
+              apply safe_pbind.
+              ** destruct (Nat.eqb i0 0); [exact I|].
+                 assert (Gargs : good line (ss + 4)).
+                 { replace (ss + 4)%nat with (S (ss + 3)) by lia.
+                   eapply good_after_ascii with (c := 40); [exact Hv| |lia].
+                   rewrite <- nth_error_drop. eapply prefixb_nth; [exact Ej1|reflexivity]. }
+                 apply suffixb1_nth in Ej2 as [_ Ej2].
+                 assert (Gend : good line (length line - 1)) by (eapply good_ascii; [exact Ej2|ascii_lt]).
+                 pose proof (slice_ok line (ss + 4) (length line - 1) Gargs Gend ltac:(lia)) as Hsl.
+                 rewrite !Hsl. cbn [rbind].
+                 pose proof (parse_scriptlet_args_safe _ (slice_valid _ _ _ _ Hv Hsl)) as Hps.
+                 destruct (parse_scriptlet_args _) as [[v|]|w]; cbn [rbind]; try exact I. contradiction.
+              ** intros [[sc sel] act] _.
+                 repeat match goal with |- safe (if ?c then _ else _) => destruct c; try exact I end.
+           ++ apply safe_pbind.
+              ** apply safe_pbind; [apply parse_after_sharp_nonscript_safe; apply valid_trim; exact Hvt|].
+                 intros sa _. match goal with |- safe (if ?c then _ else _) => destruct c end; exact I.
+              ** intros [[sc sel] act] _.
+                 repeat match goal with |- safe (if ?c then _ else _) => destruct c; try exact I end.
+        -- apply safe_pbind.
+           ++ apply safe_pbind; [apply parse_after_sharp_nonscript_safe; apply valid_trim; exact Hvt|].
+              intros sa _. match goal with |- safe (if ?c then _ else _) => destruct c end; exact I.
+           ++ intros [[sc sel] act] _.
+              repeat match goal with |- safe (if ?c then _ else _) => destruct c; try exact I end.
+Qed.
+End CosmeticProofs.
+
+(* ------------------------------------------------------------------ parse_filter and whole lists *)
+Lemma Forall_removelast {A} (P : A -> Prop) l : Forall P l -> Forall P (removelast l).
+Proof.
+  induction 1 as [|x l Hx Hl IH]; [constructor|]. cbn [removelast].
+  destruct l; [constructor|]. constructor; assumption.
+Qed.
+Lemma Forall_last {A} (P : A -> Prop) l d : Forall P l -> P d -> P (last l d).
+Proof.
+  induction 1 as [|x l Hx Hl IH]; intros Hd; [exact Hd|]. cbn [last]. destruct l; [exact Hx|]. apply IH. exact Hd.
+Qed.
+
+Lemma strip_cr_valid l : valid_utf8 l = true -> valid_utf8 (strip_cr l) = true.
+Proof.
+  intros Hv. unfold strip_cr. destruct (suffixb [13] l) eqn:E; [|exact Hv].
+  apply valid_take; [exact Hv|]. change 1%nat with (length [13]).
+  apply good_before_suffix; [exact E|reflexivity].
+Qed.
+
+Theorem lines_valid s : valid_utf8 s = true -> Forall (fun l => valid_utf8 l = true) (lines s).
+Proof.
+  intros Hv. unfold lines. pose proof (split_on_valid 10 s ltac:(lia) Hv) as H.
+  apply Forall_app. split.
+  - apply Forall_forall. intros x Hx. apply in_map_iff in Hx as (y & <- & Hy).
+    apply strip_cr_valid. pose proof (Forall_removelast _ _ H) as H'.
+    rewrite Forall_forall in H'. apply H'. exact Hy.
+  - destruct (null (last (split_on 10 s) [])); [constructor|].
+    constructor; [|constructor]. apply Forall_last; [exact H|reflexivity].
+Qed.
+
+Section TotalProofs.
+Variable lower : str -> str.
+Variable idna : str -> option str.
+Hypothesis idna_valid : forall s h, idna s = Some h -> valid_utf8 h = true.
+
+Theorem parse_filter_safe line fmt rt :
+  valid_utf8 line = true -> safe (parse_filter lower idna line fmt rt).
+Proof.
+  intros Hv. unfold parse_filter. pose proof (valid_trim line Hv) as Ht.
+  destruct (null (trim line)); [exact I|]. destruct fmt.
+  - apply safe_rbind; [apply detect_filter_type_safe; exact Ht|]. intros ty _.
+    destruct (N.eqb ty FT_NETWORK && loads_network rt).
+    + apply safe_pbind; [apply network_parse_safe; exact Ht|]. intros; exact I.
+    + destruct (N.eqb ty FT_COSMETIC && loads_cosmetic rt); [|exact I].
+      apply safe_pbind; [apply cosmetic_parse_safe; exact Ht|]. intros; exact I.
+  - destruct (negb (loads_network rt)); [exact I|].
+    destruct (hosts_hostname_props _ Ht) as [Hs Hh].
+    apply safe_pbind; [exact Hs|]. intros h Hhe.
+    apply safe_pbind; [apply parse_hosts_style_safe; [exact idna_valid|apply Hh; exact Hhe]|].
+    intros; exact I.
+Qed.
+
+Theorem add_filter_list_safe fs text fmt rt :
+  valid_utf8 text = true ->
+  safe (add_filter_list (fun l => parse_filter lower idna l fmt rt) fs text).
+Proof.
+  intros Hv. unfold add_filter_list. apply safe_rbind.
+  - apply parse_list_safe. intros l Hl. apply parse_filter_safe.
+    pose proof (lines_valid text Hv) as H. rewrite Forall_forall in H. apply H. exact Hl.
+  - intros [[m ns] cs] _. exact I.
+Qed.
+End TotalProofs.
+
+(* ------------------------------------------------------------------ the hypotheses are satisfiable *)
+Definition ex_parse (l : str) := parse_filter (lower_of []) (idna_of []) l FF_Standard RT_All.
+
+(* a valid multi-byte text on which the slicing code really cuts next to 2-, 3- and 4-byte characters *)
+Example ex_valid_multibyte :
+  valid_utf8 (hx "40407c7cc3a92e636f6d5ee6bca224f09f9880") = true /\
+  slice (hx "40407c7cc3a92e636f6d5ee6bca224f09f9880") 5 6 = Panic "str slice" /\
+  is_ok (abstract_parse (hx "40407c7cc3a92e636f6d5ee6bca224f09f9880")) = true.
+Proof. vm_compute. auto. Qed.
+
+(* line_independent: a rejected line between two accepted ones *)
+Example ex_line_independent :
+  ex_parse (bs "ads$unknownoption") = Ok (inr "UnrecognisedOption"%string) /\
+  md_neutral (bs "ads$unknownoption") /\
+  exists n c, parse_list ex_parse [bs "||ads.net^"; bs "ads$unknownoption"; bs "a.com##.ad"] md_empty
+              = Ok (md_empty, [n], [c]).
+Proof.
+  split; [vm_compute; reflexivity|]. split; [intros m; reflexivity|].
+  eexists. eexists. vm_compute. reflexivity.
+Qed.
+
+(* hosts_equiv / rule types: a hosts line with an address, upper case, "www." and a comment *)
+Example ex_hosts :
+  exists f, parse_filter (lower_of []) (idna_of []) (bs " 127.0.0.1 www.Foo.com # c") FF_Hosts RT_NetworkOnly
+            = Ok (inl (PNetwork f)) /\ nr_raw_line f = bs "||foo.com^".
+Proof. eexists. vm_compute. split; reflexivity. Qed.
+
+Example ex_rule_types :
+  parse_filter (lower_of []) (idna_of []) (bs "a.com##.ad") FF_Standard RT_NetworkOnly = Ok (inr "Unsupported"%string) /\
+  parse_filter (lower_of []) (idna_of []) (bs "||a.com^") FF_Standard RT_CosmeticOnly = Ok (inr "Unsupported"%string).
+Proof. vm_compute. auto. Qed.
+
+(* the idna contract holds for the table oracles the harness passes when the table entries are valid *)
+Example ex_idna_contract : forall s h, idna_of [(hx "c3bc2e636f6d", Some (bs "xn--tda.com"))] s = Some h -> valid_utf8 h = true.
+Proof.
+  intros s h. unfold idna_of. cbn [assoc_str]. destruct (str_eqb s (hx "c3bc2e636f6d")).
+  - intros H; inversion H; subst. reflexivity.
+  - intros H; inversion H; subst. reflexivity.
+Qed.
+
+(* ------------------------------------------------------------------ tie to the crate's option table *)
+(* [c11_option_arms] / [c11_cpt_bits] are regenerated from the match arms in /repo/src on every run;
+   the hand-written [parse_option] must classify every (name, negation) of the source the same way. *)
+Definition kind_of (r : nf_option + string) : string :=
+  match r with
+  | inr e => String.append "err:" e
+  | inl o =>
+      match o with
+      | ODomain _ => "Domain" | OBadfilter => "Badfilter" | OImportant => "Important"
+      | OMatchCase => "MatchCase" | OThirdParty _ => "ThirdParty" | OFirstParty _ => "FirstParty"
+      | OTag _ => "Tag" | ORedirect _ => "Redirect" | ORedirectRule _ => "RedirectRule"
+      | OCsp _ => "Csp" | ORemoveparam _ => "Removeparam" | OGenerichide => "Generichide"
+      | ODocument => "Document"
+      | OCpt bit _ => match find (fun x => N.eqb (snd x) bit) c11_cpt_bits with
+                      | Some x => fst x | None => "?" end
+      end
+  end%string.
+
+Definition polarity_ok (neg : bool) (r : nf_option + string) : bool :=
+  match r with
+  | inl (OCpt _ e) | inl (OThirdParty e) | inl (OFirstParty e) => Bool.eqb e (negb neg)
+  | _ => true
+  end.
+
+Definition arm_agrees (arm : string * option bool * string) : bool :=
+  let '(name, np, kind) := arm in
+  forallb (fun neg : bool =>
+             let r := parse_option ((if neg then [c_TILDE] else []) ++ bs name ++ bs "=x") in
+             String.eqb (kind_of r) kind && polarity_ok neg r)
+          (match np with Some b => [b] | None => [true; false] end).
+
+Definition model_option_names : list string :=
+  app (["domain"; "from"; "badfilter"; "important"; "match-case"; "third-party"; "3p"; "first-party"; "1p";
+        "tag"; "redirect"; "redirect-rule"; "csp"; "removeparam"; "generichide"; "ghide"; "document"; "doc"]%string)
+      (map fst cpt_options).
+
+Theorem option_table_agrees :
+  forallb arm_agrees c11_option_arms = true /\
+  forallb (fun n => existsb (fun a => String.eqb n (fst (fst a))) c11_option_arms) model_option_names = true /\
+  forallb (fun a => existsb (String.eqb (fst (fst a))) model_option_names) c11_option_arms = true /\
+  parse_option (bs "no-such-option") = inr "UnrecognisedOption"%string.
+Proof. vm_compute. auto. Qed.
